@@ -28,12 +28,9 @@ Proof.
   destruct (last_opt (map (fun x => x + p_start i) gt)) as [lst'|] eqn:EL; [|discriminate].
   destruct (concat_chan fx false lst' (qmin_opt ms step) (Some m) rest) as [[[[ts' cs'] ms''] md'']|] eqn:ER;
     [|discriminate].
-  intro H.
+  intro H. inversion H; subst; clear H.
   exists gt, co, step, m, idl, lst', ts', cs'.
-  repeat split; try reflexivity; try congruence.
-  - assert (ms'' = ms') by congruence. assert (md'' = md') by congruence. subst. reflexivity.
-  - unfold head_t. destruct fx; destruct first; destruct (Qlt_b (Qabs lst) (step * tol)); congruence.
-  - unfold head_c. destruct fx; destruct first; destruct (Qlt_b (Qabs lst) (step * tol)); congruence.
+  repeat split; first [assumption | reflexivity].
 Qed.
 
 (* mode returned by the classification *)
@@ -110,6 +107,18 @@ Proof.
   split; congruence.
 Qed.
 
+Lemma last_In (l : list Q) d : l <> [] -> In (last l d) l.
+Proof.
+  induction l as [|x l IH]; [congruence|]. intros _.
+  destruct l as [|y l]; [left; reflexivity|]. right. apply IH. congruence.
+Qed.
+
+Lemma chain_ord_eq a b l : a == b -> chain_ord a l -> chain_ord b l.
+Proof.
+  intros E. destruct l as [|j l]; [tauto|]. intros (A & B & C).
+  split; [exact A|]. split; [lra|exact C].
+Qed.
+
 Lemma chan_grid_nf l : forall lst ms md ts cs ms' md',
   chain_ord lst l -> ms_pos ms ->
   concat_chan true false lst ms md l = Some (ts, cs, ms', md') ->
@@ -127,9 +136,7 @@ Proof.
     set (ex := map (fun x => x + p_start i) (tl (w_ts (p_wave i)))) in *.
     rewrite (last_opt_last ex (p_start i) Ene) in EL. injection EL as <-.
     assert (HC' : chain_ord (last ex (p_start i)) rest).
-    { clear - HC Elast. revert HC. generalize (p_end i) (last ex (p_start i)) Elast.
-      unfold p_end. intros. destruct rest as [|j rest]; [exact I|].
-      destruct HC as (A & B & C). split; [exact A|]. split; [lra|exact C]. }
+    { apply chain_ord_eq with (a := p_end i); [unfold p_end; lra|exact HC]. }
     destruct (IH _ _ _ _ _ _ _ HC' (qmin_opt_pos _ _ Hms Hs) ER) as (Hinc' & Hms' & Hne').
     split; [|split].
     + (* increasing *)
@@ -143,9 +150,7 @@ Proof.
         apply incr_app; [exact Hi|].
         apply incr_from_weaken with (a := p_start i); [|exact Htail].
         destruct idl as [|y idl]; [cbn; lra|].
-        apply Hb. clear. generalize y at 1 3. induction idl as [|z idl IHi]; intros y0.
-        -- left. reflexivity.
-        -- right. destruct idl as [|z' idl]; [left; reflexivity|]. apply (IHi z).
+        apply Hb. apply last_In. congruence.
       * injection EI as <-. cbn [app]. apply incr_from_weaken with (a := p_start i); assumption.
     + exact Hms'.
     + intros _. split.
@@ -154,6 +159,29 @@ Proof.
         -- cbn in ER. injection ER as _ _ <- <-.
            destruct (qmin_opt_some ms (step_of (p_wave i))) as [m0 E0]. exists m0. split; [exact E0|congruence].
         -- destruct Hne' as [_ Hx]; [congruence|]. exact Hx.
+Qed.
+
+(* the arrays do not depend on the threaded min_step_size / pulse_mode *)
+Lemma concat_chan_ms_irrel fx l : forall first lst ms md ts cs ms' md' ms2 md2,
+  concat_chan fx first lst ms md l = Some (ts, cs, ms', md') ->
+  exists ms2' md2', concat_chan fx first lst ms2 md2 l = Some (ts, cs, ms2', md2').
+Proof.
+  induction l as [|i rest IH]; intros first lst ms md ts cs ms' md' ms2 md2 H.
+  - cbn in H. inversion H; subst. cbn. eauto.
+  - apply concat_chan_inv in H.
+    destruct H as (gt & co & step & m & idl & lst' & ts' & cs' & EP & EI & EL & ER & Ets & Ecs).
+    destruct (IH _ _ _ _ _ _ _ _ (qmin_opt ms2 step) (Some m) ER) as (a & b & ER').
+    exists a, b. cbn [concat_chan]. rewrite EP, EI, EL, ER'. cbn in Ets, Ecs. subst ts cs.
+    unfold head_t, head_c. reflexivity.
+Qed.
+
+Lemma chan_incr_nf l lst ms md ts cs ms' md' :
+  chain_ord lst l ->
+  concat_chan true false lst ms md l = Some (ts, cs, ms', md') -> incr_from lst ts.
+Proof.
+  intros HC H.
+  destruct (concat_chan_ms_irrel _ _ _ _ _ _ _ _ _ _ None None H) as (a & b & H').
+  destruct (chan_grid_nf l lst None None ts cs a b HC I H') as (Hi & _). exact Hi.
 Qed.
 
 Lemma concat_first lst ms md i rest ts cs ms' md' :
